@@ -110,7 +110,7 @@ def run_case(case):
         return a
 
     try:
-        if "box" not in case and "trace" not in case:
+        if "box" not in case and "trace" not in case and not case.get("incremental"):
             res["st"] += 1
             cmp("size()", im.size, sm.size)
             cmp("labels()", lambda: sorted(im.labels()), lambda: sorted(sm.labels()))
@@ -133,6 +133,44 @@ def run_case(case):
             xs = [graph[k][0][1] for k in graph]
             if bbv is not None and bbv != (min(ys), min(xs), max(ys), max(xs)):
                 bad(f"bb() = {bbv} is not the bounding box {(min(ys), min(xs), max(ys), max(xs))}")
+        # the same content reached incrementally: load a part, QUERY it, then add the rest with single inserts, compare again
+        if "box" not in case and "trace" not in case and len(maps.graph_edges(graph)) >= 2:
+            es = maps.graph_edges(graph)
+            half = len(es) // 2
+            g1 = {k: (v[0], []) for k, v in graph.items()}
+            for a, b in es[:half]:
+                g1[a][1].append(b)
+            im2 = maps.inmem(g1)
+            sm2 = maps.sqlite(g1, name="s2", bulk=False)
+            try:
+                for phase in (1, 2):
+                    if phase == 2:
+                        for a, b in es[half:]:
+                            im2.add_edge(a, b)
+                            sm2.add_edge(a, b)
+                    res["st"] += 1
+                    tag = f"[phase {phase} of an incremental build: {half} edges, queried, then +{len(es) - half} by add_edge]"
+                    for k in graph:
+                        cmp(f"nodes_nbrto({k}) {tag}", lambda: [x for x in norm_nodes(im2.nodes_nbrto(k)) if x[0] != k], lambda: norm_nodes(sm2.nodes_nbrto(k)),
+                            incremental=True)
+                    cur = es[:half] if phase == 1 else es
+                    for a_, b_ in cur:
+                        cmp(f"edges_nbrto(({a_},{b_})) {tag}", lambda: [x for x in norm_edges(im2.edges_nbrto((a_, b_))) if x[0] != x[2]],
+                            lambda: norm_edges(sm2.edges_nbrto((a_, b_))), incremental=True)
+                    cmp(f"all_edges() {tag}", lambda: norm_edges(im2.all_edges()), lambda: norm_edges(sm2.all_edges()), incremental=True)
+                    r2 = []
+                    for mp in (im2, sm2):
+                        m = DistanceMatcher(mp, non_emitting_states=True, obs_noise=1.0)
+                        try:
+                            st_, idx_ = m.match([OBS[0], OBS[3]])
+                            r2.append((idx_, None if not m.lattice_best else round(float(m.lattice_best[-1].logprob), 9)))
+                        except Exception as exc:  # noqa
+                            r2.append(("EXC", repr(exc)))
+                        res["n"] += 1
+                    if r2[0] != r2[1]:
+                        bad(f"match {tag}: in-memory {r2[0]} != SQLite {r2[1]}", incremental=True)
+            finally:
+                maps.close(sm2)
         # boxes
         if "trace" not in case:
             iy = intervals([graph[k][0][0] for k in graph])
